@@ -40,6 +40,10 @@ def coupled_random(rng, W, name):
             a["t_length"] = 0
         if a["t_length"] == 2 and a["count"] > 8:
             a["t_length"] = 0
+        if a["t_length"] == 3 and rng.random() < 0.5:
+            # length carried in the TPSIU and stated by the data handed over
+            del a["extra_tl"]
+            a["#datalen"] = rng.choice([0, 1, 16, 512])
     if ph == "readcd":
         a["tl"] = rng.randint(0, 4)
     return a
@@ -51,11 +55,11 @@ def record_random(chk, cases, n_per_class):
         W[c["cls"]]["coupled"] = c.get("coupled", [])
     rng = random.Random(chk.seed)
     events = []
-    for name in sorted(W):
+    order = [name for name in sorted(W) if W[name]["ph"] != "out_list"] * n_per_class
+    rng.shuffle(order)          # classes interleaved: a command must not depend on what was built before it
+    for name in order:
         ph = W[name]["ph"]
-        if ph == "out_list":
-            continue
-        for _ in range(n_per_class):
+        for _ in range(1):
             a = coupled_random(rng, W, name)
             for s in W[name]["sets"]:
                 if cmds.opcode(name, s) is None:
@@ -72,9 +76,10 @@ def run(chk, replay=None):
         chk.only(replay)
     want = cc.CLAUSES["C01"]
     cases = cc.spec_cases(chk, "c01mc")
-    cc.replay(chk, cases, want)
+    ev1 = cc.replay(chk, cases, want)
     chk.ev.sample({"spec_case": {k: cases[len(cases) // 3][k] for k in ("cls", "a", "cdb", "ctor")}})
     events = record_random(chk, cases, 40 if chk.quick else 400)
+    events = ev1 + events
     cc.judge(chk, events, want, "c01tr")
     chk.ev.sample({"event": events[len(events) // 2]})
     chk.ev.cov["rule"] = ("spec cases: for each of the 42 classes, star (3 backgrounds x every field x {0, max, single "
